@@ -2,15 +2,15 @@
 EXTENDS Kafka, TLC
 CONSTANT MaxMsgs
 VARIABLES ins, outs
-R(v) == [nums |-> [protocolIdentifier |-> v], strs |-> [sourcePodName |-> "p"]]
-Msgs == { [kind |-> "template", time |-> 1, seq |-> 0, dom |-> 1, addr |-> "a", recs |-> << >>] }
-   \cup { [kind |-> "data", time |-> 2, seq |-> s, dom |-> 1, addr |-> "a", recs |-> rs] :
+R(v) == [nums |-> [protocolIdentifier |-> v], strs |-> [sourcePodName |-> <<112>>]]
+Msgs == { [kind |-> "template", time |-> 1, seq |-> 0, dom |-> 1, addr |-> <<97>>, recs |-> << >>] }
+   \cup { [kind |-> "data", time |-> 2, seq |-> s, dom |-> 1, addr |-> <<97>>, recs |-> rs] :
             s \in {1, 2}, rs \in { << >>, <<R(1)>>, <<R(1), R(2)>>, <<R(3), R(1), R(2)>> } }
 Init == KInit /\ ins = << >> /\ outs = << >>
 APublish(m) == npub < MaxMsgs /\ Publish(m) /\ ins' = Append(ins, m) /\ UNCHANGED outs
 AOut == /\ pending # << >>
         /\ Out([nums |-> [f \in { g \in NumFields : Head(pending).nums[g] # 0 } |-> Head(pending).nums[f]],
-                strs |-> [f \in { g \in StrFields : Head(pending).strs[g] # "" } |-> Head(pending).strs[f]]])
+                strs |-> [f \in { g \in StrFields : Head(pending).strs[g] # << >> } |-> Head(pending).strs[f]]])
         /\ outs' = Append(outs, Head(pending)) /\ UNCHANGED ins
 Next == (\E m \in Msgs : APublish(m)) \/ AOut
 Spec == Init /\ [][Next]_<<kvars, ins, outs>>
